@@ -62,6 +62,20 @@ Round 3 (seeded change C18-9: the hand-over into a RE-USED out profile read the 
     `out-state-not-own-solution-on-last-pre-processor-output`, `returned-profile-…`);
   * sequences inside sequences (12 % of the histories allow them; the members of the inner one are solved >= 4
     times per solve of the outer one): not in the Lean model (one level) - such histories are checked by the oracle only.
+
+Round 4 (seeded changes C18-10: the walks yield nothing for a unit that names a parent without being one of its
+sub-units; C18-11: no post-processing when the solution loop ends by the iteration limit) added:
+  * units solved AS processors of another unit are units like every other: the auto-rotator the library's factory makes
+    (`Rotator(parent=roll_pass)`) gets a record of its own solve (instance attributes `solve` / `_solve_subunits` on the
+    transient object), the harness's factories registered on Unit / Rotator are consulted for it, recorded and checked
+    with every clause of `check_record` (keys prefixed `unit-used-as-processor-`); in ordinary histories they answer
+    None for it (nothing changes for the model), in `helpermode` histories (15 %, oracle only) they make processors
+    for it, and `hfac` factories make helper units of classes of the history the same way (`cls(parent=<owner>)`, no
+    sub-unit of the owner) as pre- and post-processors, with registrations on the helper's own class hierarchy;
+  * `maxit u k`: max_iteration_count of a unit (2: one round, the loop ends by the limit; 3: two rounds; 0: default) for
+    leaf units, members, sequences and real roll passes; clause `no-post-processing-when-iteration-limit-reached` next
+    to the existing scope / pre-own-post clauses, which hold on every way out of the solution loop;
+  * the walk of a class is looked at on an instance that went through `Unit.__init__` (`_probe`), not a bare one.
 """
 import collections
 import inspect
@@ -80,7 +94,13 @@ RULE = ("random histories over real class hierarchies built with type() below Un
         "solves of leaf units and of sequences, re-solves of the same unit after its state (flag; rotation of a roll "
         "pass) changed included; 30% of the histories contain real two-roll passes (groove, roll, gap, real workpiece) "
         "solved alone and as members of sequences; 12% of the histories allow sequences as members of sequences "
-        "(oracle only); factories always/never/unit-state-dependent, processors in-place/new-object/identity, the "
+        "(oracle only); 15% of the histories are `helpermode` ones (oracle only): factories that make a real UNIT of a "
+        "class of the history with parent=<the unit it works for> (the pattern of the library's rotator_factory) as pre-/"
+        "post-processor, registrations on the helper's own class hierarchy, and the library's auto-rotator gets the "
+        "processors registered on Rotator/Unit - in every other history those factories are consulted for the auto-rotator "
+        "too (recorded, checked) and answer None; about 12% of the solves follow a `maxit` (max_iteration_count 2 / 3 / "
+        "default: the solution loop ends by the limit or by convergence) on leaf units, members, sequences, roll passes; "
+        "factories always/never/unit-state-dependent, processors in-place/new-object/identity, the "
         "first two also adding, changing or dropping a value besides their mark (9 behaviours); about a quarter of "
         "the solve calls re-use an existing out profile (second solve of a unit, later rounds of a sequence). "
         "A case is non-trivial when some solve consulted >= 2 factories; distinct by the op lines.")
@@ -108,6 +128,11 @@ ASSUMPTIONS = [
     "`fresh` or `inplace` there; those values are checked by the oracle on the real objects and, for the re-use "
     "branch of init_solve, by `refreshEntry` on the literals read from the source "
     "(source_reuse_branch_hands_over_every_entry); sequences inside sequences are checked by the oracle only",
+    "the Lean model's processors are no units: a unit solved as processor of another unit (the library's auto-rotator, "
+    "helper units made with parent=<owner>) is, in the model, a copying processor; that the processors registered on ITS "
+    "class hierarchy are consulted / run for it is checked by the oracle on the real code (in ordinary histories the "
+    "harness's factories answer None for it, so the model's trace is unaffected; `helpermode` histories are oracle only); "
+    "the walk of a class is observed on an instance initialised by Unit.__init__ only (no parent, no sub-units)",
 ]
 
 NAMES = {"p": "pre_processors", "q": "post_processors"}
@@ -116,6 +141,8 @@ LIBNAMES = ["Unit", "PassSequence", "DiskElementUnit", "Transport", "Rotator",
 (C_UNIT, C_SEQ, C_DEU, C_TRANSPORT, C_ROTATOR, C_DEFU, C_BRP, C_SRP, C_TWO, C_THREE, C_COOL) = range(11)
 M0 = len(LIBNAMES)            # id of the first class a history defines
 LIBFAC0 = 900                 # factory / processor ids of the registrations the library itself makes
+HELPER0 = 1000                # ids of units that are solved AS processors of another unit (created with parent=<owner>,
+#                               not listed in owner.subunits): the library's auto-rotator, helper units of the harness
 
 
 # what a processor of the harness does with the profile it receives (op `beh p <letter>`).  Every behaviour except "s"
@@ -225,13 +252,25 @@ def _sub(a, b):
     return b in a.__mro__
 
 
+def _probe(cls):
+    """an instance of a unit class for looking at its walks without its constructor (abstract methods, required
+    arguments): the state every unit has (`Unit.__init__`: label, no parent, no sub-units, no profiles) and nothing else"""
+    import pyroll.core as pr
+    inst = object.__new__(cls)
+    try:
+        pr.Unit.__init__(inst, label="probe")
+    except Exception:
+        pass
+    return inst
+
+
 def _quiet():
     logging.getLogger("pyroll").setLevel(logging.ERROR)
 
 
 class Ev:
     __slots__ = ("t", "kind", "w", "f", "p", "res", "recv", "ret", "recv_marks", "ret_marks", "unit_ok", "asked",
-                 "recv_attrs", "ret_attrs", "beh")
+                 "recv_attrs", "ret_attrs", "beh", "unitproc")
 
     def __init__(self, t, kind, **kw):
         self.t = t
@@ -274,6 +313,10 @@ class Rec:
         self.parent_iter = None   # iteration of the enclosing solve in which this one ran
         self.parent_in_marks = None   # marks of the enclosing unit's in_profile when this solve was entered
         self.later = False        # the unit's class was defined after a registration that applies to it
+        self.helper = False       # the unit is solved as a processor of another unit (parent=<owner>, no sub-unit of it)
+        self.mute = False         # ... in a history in which the harness's factories have nothing for such units: they
+        #                           are consulted (and recorded) and answer None; no trace line, no own-solution mark
+        self.limit = None         # max_iteration_count the harness set on the unit (None: the library's default)
         self.sibling = False      # a registration exists on a sibling class (common made base, not a base of ours)
 
 
@@ -329,6 +372,13 @@ class Real:
         self.pending = []         # library factory calls entered and not yet returned: (code, argument)
         self.flag_changed = set() # units whose flag changed since their last solve
         self.nested = False       # a sequence of this history has a sequence as member (not in the Lean model: oracle only)
+        self.helper_mode = False  # op `helpermode`: units solved as processors of another unit get the processors the
+        #                           harness's factories registered on THEIR classes make (not in the Lean model: oracle only)
+        self.hunits = {}          # id(unit) -> helper id (>= HELPER0)
+        self.hkeep = []           # the helper units (kept alive: ids must not be re-used)
+        self.howner = {}          # helper id -> uid of the unit it works for
+        self.hcls = {}            # factory id -> class id of the helper units it makes (op `hfac`)
+        self.limits = {}          # uid -> max_iteration_count set by op `maxit`
         # registrations the LIBRARY itself made (the auto-rotator on BaseRollPass): part of the log, serial = scan order
         self.libfac = {}          # factory id -> the library's factory object
         self.libreg = []          # (w, class id, factory id)
@@ -383,7 +433,29 @@ class Real:
     def gives(self, f, uid):
         """what factory f of the harness answers for unit uid in its CURRENT state"""
         kind, _p = self.fdef[f]
-        return kind == "always" or (kind == "flag" and uid >= 0 and self.uflag[uid])
+        if uid >= HELPER0:
+            # a unit solved as processor of another unit: the harness's factories know it only in `helpermode`
+            # histories; a helper never gets helpers itself (no recursion)
+            return self.helper_mode and kind == "always"
+        return kind == "always" or (kind == "flag" and uid >= 0 and self.uflag[uid]) or (kind == "helper" and uid >= 0)
+
+    def gives_at(self, f, rec):
+        """the same for the unit as it was while the solve call `rec` ran"""
+        kind, _p = self.fdef[f]
+        if rec.helper:
+            return self.helper_mode and kind == "always"
+        return kind in ("always", "helper") or (kind == "flag" and bool(rec.flag))
+
+    def add_helper(self, unit, owner_uid):
+        hid = HELPER0 + len(self.hkeep)
+        self.hunits[id(unit)] = hid
+        self.hkeep.append(unit)
+        self.howner[hid] = owner_uid
+        return hid
+
+    def any_uid(self, unit):
+        uid = self.uid.get(id(unit))
+        return self.hunits.get(id(unit), -1) if uid is None else uid
 
     def tick(self):
         self.clock += 1
@@ -457,22 +529,34 @@ class Real:
             ns["__init_subclass__"] = classmethod(isc)
         return ns, holder
 
-    def on_solve(self, unit, in_profile):
-        uid = self.uid[id(unit)]
-        rec = Rec(uid, unit, in_profile, self.useq[uid])
-        rec.flag = self.uflag[uid]
+    def on_solve(self, unit, in_profile, call=None):
+        uid = self.uid.get(id(unit))
+        helper = uid is None
+        if helper:
+            uid = self.hunits.get(id(unit))
+            if uid is None:
+                raise HarnessError("harness: solve of a unit the harness does not know")
+            rec = Rec(uid, unit, in_profile, False)
+            rec.flag = False
+            rec.helper = True
+            rec.mute = not self.helper_mode
+        else:
+            rec = Rec(uid, unit, in_profile, self.useq[uid])
+            rec.flag = self.uflag[uid]
+            rec.limit = self.limits.get(uid)
         rec.reused_out = unit.out_profile is not None
         rec.depth = len(self.stack)
-        if self.stack:
+        if self.stack and not helper:
             parent = self.stack[-1]
             rec.parent_iter = parent.iters
             rec.parent_in_marks = tuple(getattr(parent.unit.in_profile, "marks", ()))
             rec.parent_in_attrs = owned(parent.unit.in_profile)
             parent.children.append(rec)
         self.stack.append(rec)
-        self.trace.append(f"E {uid} #{self.oid(in_profile)}")
+        if not rec.mute:
+            self.trace.append(f"E {uid} #{self.oid(in_profile)}")
         try:
-            ret = self.pr.Unit.solve(unit, in_profile)
+            ret = self.pr.Unit.solve(unit, in_profile) if call is None else call(in_profile)
         finally:
             self.stack.pop()
         rec.ret = ret
@@ -482,8 +566,9 @@ class Real:
         rec.out_marks_at_leave = tuple(getattr(op, "marks", ()))
         rec.out_attrs_at_leave = owned(op)
         self.flag_changed.discard(uid)
-        self.trace.append(f"L {uid} #{self.oid(ret)} #{self.oid(ip)} #{self.oid(op)} "
-                          f"{self.show_marks(ret)} {self.show_marks(ip)} {self.show_marks(op)}")
+        if not rec.mute:
+            self.trace.append(f"L {uid} #{self.oid(ret)} #{self.oid(ip)} #{self.oid(op)} "
+                              f"{self.show_marks(ret)} {self.show_marks(ip)} {self.show_marks(op)}")
         self.records.append(rec)
         self.check_record(rec)
         return ret
@@ -500,10 +585,11 @@ class Real:
             rec.in_attrs_at_own = owned(unit.in_profile)
             rec.out_obj_at_own = unit.out_profile
             rec.out_attrs_at_own = owned(unit.out_profile)      # what init_solve handed over, before the own solution
-            self.serial += 1
-            rec.own_mark = (f"o{rec.uid}", self.serial)
-            unit.out_profile.marks = tuple(getattr(unit.out_profile, "marks", ())) + (rec.own_mark,)
-        if rec.is_seq or rec.iters == 1:
+            if not rec.mute:
+                self.serial += 1
+                rec.own_mark = (f"o{rec.uid}", self.serial)
+                unit.out_profile.marks = tuple(getattr(unit.out_profile, "marks", ())) + (rec.own_mark,)
+        if (rec.is_seq or rec.iters == 1) and not rec.mute:
             self.trace.append(f"O {rec.uid}")
 
     def phase(self, rec):
@@ -519,24 +605,45 @@ class Real:
     def on_factory(self, f, unit):
         if not self.stack:
             raise HarnessError("harness: factory consulted outside a solve")
-        uid = self.uid.get(id(unit), -1)
+        uid = self.any_uid(unit)
         if uid < 0 and self.foreign_depth:
-            # a processor the LIBRARY created (the auto-rotator, itself a unit) is solving itself and asks the
+            # a processor the LIBRARY created that could not be instrumented is solving itself and asks the
             # factories registered on its own classes: the harness's factories have nothing for units they do not know
             return None
         rec = self.stack[-1]
         w = self.phase(rec)
         self.snapshot_out_before_post(rec, w)
-        _kind, p = self.fdef[f]
+        kind, p = self.fdef[f]
+        # (a unit solved as processor of another unit - the auto-rotator the library creates, a helper unit of the
+        # harness - is a unit like every other: the factories registered on ITS classes are consulted, the consultation
+        # is recorded in the record of ITS solve; outside `helpermode` histories they have nothing for it)
         give = self.gives(f, uid)
         ev = Ev(self.tick(), "C", w=w, f=f, p=p if give else None, unit_ok=unit is rec.unit)
         rec.ev.append(ev)
-        self.trace.append(f"C {w} {f} {uid}")
+        if not rec.mute:
+            self.trace.append(f"C {w} {f} {uid}")
         if not give:
             return None
+        if kind == "helper":
+            return self.make_helper(f, p, ev, rec, unit, uid)
         proc = Proc(self, p, ev)
         proc.rec = rec
         return proc
+
+    def make_helper(self, f, p, ev, rec, owner, owner_uid):
+        """the processor is a REAL unit of a class of the history, created the way the library creates its auto-rotator:
+        `parent=<the unit it works for>`, not one of that unit's sub-units; solved by the standard `Unit.solve`"""
+        cls = self.classes[self.hcls[f]]
+        h = cls(label=f"h{len(self.hkeep)}", parent=owner, **self.unit_kwargs(cls, 0))
+        self.add_helper(h, owner_uid)
+        d = h.__dict__
+        d["_c18_consult"] = (ev, rec, [False])
+        real = self
+
+        def solve(profile, _h=h, _p=p, _f=f):
+            return real.on_unit_proc(_h, _f, _p, lambda prof: type(_h).solve(_h, prof), profile)
+        d["solve"] = solve
+        return h
 
     # ---- a factory of the library (observed through sys.monitoring, see _cb_start/_cb_return) -----------------
     def mon_start(self, code, frame):
@@ -573,15 +680,41 @@ class Real:
         if "_c18_solve" not in d:
             real = self
             orig = retval.solve
+            # the library's processor is a unit (the auto-rotator: `Rotator(parent=roll_pass)`, no sub-unit of the
+            # pass) solved by the standard `Unit.solve`: it gets a record of its own like every unit the harness
+            # solves (instance attributes on this transient object; nothing of the library is replaced)
+            is_unit = isinstance(retval, self.pr.Unit) and type(retval).solve is self.pr.Unit.solve \
+                and type(retval)._solve_subunits is self.pr.Unit._solve_subunits and type(retval) in self.classes
+            if is_unit:
+                self.add_helper(retval, uid)
+                orig_ss = retval._solve_subunits
 
-            def solve(profile, _proc=retval, _orig=orig, _f=f):
-                return real.on_lib_proc(_proc, _f, _orig, profile)
+                def _solve_subunits(_proc=retval, _orig_ss=orig_ss):
+                    real.on_iter(_proc)
+                    return _orig_ss()
+                d["_solve_subunits"] = _solve_subunits
+
+            def solve(profile, _proc=retval, _orig=orig, _f=f, _is_unit=is_unit):
+                return real.on_lib_proc(_proc, _f, _orig, profile, _is_unit)
             d["_c18_solve"] = True
             d["solve"] = solve
 
-    def on_lib_proc(self, proc, f, orig, profile):
+    def on_lib_proc(self, proc, f, orig, profile, is_unit=False):
         if _MON["active"] is not self or not self.stack:
             return orig(profile)
+        if is_unit:
+            return self.on_unit_proc(proc, f, f, lambda prof: self.on_solve(proc, prof, call=orig), profile)
+
+        def call(prof):
+            self.foreign_depth += 1
+            try:
+                return orig(prof)
+            finally:
+                self.foreign_depth -= 1
+        return self.on_unit_proc(proc, f, f, call, profile)
+
+    def on_unit_proc(self, proc, f, p, call, profile):
+        """a processor that is itself a unit (made by the library or by a `helper` factory of the harness) runs"""
         rec = self.stack[-1]
         w = self.phase(rec)
         self.snapshot_out_before_post(rec, w)
@@ -590,19 +723,16 @@ class Real:
         used[0] = True
         recv_marks = tuple(getattr(profile, "marks", ()))
         recv_attrs = owned(profile)
-        self.foreign_depth += 1
-        try:
-            ret = orig(profile)
-        finally:
-            self.foreign_depth -= 1
+        ret = call(profile)
         self.serial += 1
-        mark = (f"p{f}", self.serial)
-        # instrumentation (like the own-solution mark): what the library's processor returned carries its mark
+        mark = (f"p{p}", self.serial)
+        # instrumentation (like the own-solution mark): what the unit used as processor returned carries its mark
         ret.marks = tuple(getattr(ret, "marks", ())) + (mark,)
-        rec.ev.append(Ev(self.tick(), "P", w=w, p=f, f=f, recv=profile, ret=ret, recv_marks=recv_marks,
+        rec.ev.append(Ev(self.tick(), "P", w=w, p=p, f=f, recv=profile, ret=ret, recv_marks=recv_marks,
                          ret_marks=tuple(ret.marks), res=mark, asked=asked, recv_attrs=recv_attrs,
-                         ret_attrs=owned(ret), beh="f"))
-        self.trace.append(f"P {w} {f} #{self.oid(profile)} #{self.oid(ret)}")
+                         ret_attrs=owned(ret), beh="f", unitproc=True))
+        if not rec.mute:
+            self.trace.append(f"P {w} {p} #{self.oid(profile)} #{self.oid(ret)}")
         return ret
 
     def on_proc(self, proc, profile):
@@ -659,6 +789,44 @@ class Real:
             self.fobj[f] = factory
             self.fid[id(factory)] = f
             return [(f"fac {f} {kind} {p}", "ok")]
+        if n == "helpermode":
+            # from here on the harness's factories know the units that are solved as processors of another unit (the
+            # auto-rotator the library makes, the helper units of `hfac` factories): what is registered on THEIR
+            # classes makes processors for them.  Not in the Lean model (its processors are no units): oracle only
+            self.helper_mode = True
+            return []
+        if n == "hfac":
+            # a factory whose processor is a real unit of class c created with parent=<the unit it works for> - the
+            # pattern of the library's rotator_factory; for a unit that is itself such a helper it returns nothing
+            _, f, c, p = op
+            if not self.helper_mode:
+                raise HarnessError("harness: hfac outside a helpermode history")
+            cls = self.classes[c]
+            if not self.solvable(cls) or self.is_rollpass_class(cls) or _sub(cls, self.pr.PassSequence):
+                raise HarnessError("harness: helper units are plain leaf units")
+            self.fdef[f] = ("helper", p)
+            self.hcls[f] = c
+            self.beh[p] = "f"
+            real = self
+
+            def factory(unit, _f=f):
+                return real.on_factory(_f, unit)
+            factory.__name__ = f"helper_factory{f}"
+            self.fobj[f] = factory
+            self.fid[id(factory)] = f
+            return []
+        if n == "maxit":
+            # the unit's solution loop may end by the iteration limit instead of by convergence (2: one round, nothing
+            # to compare with; 3: two rounds); 0: back to the library's default.  The number of rounds is an input of
+            # the model, so nothing is sent to it
+            _, u, k = op
+            if k:
+                self.units[u].max_iteration_count = k
+                self.limits[u] = k
+            else:
+                self.units[u].__dict__.pop("max_iteration_count", None)
+                self.limits.pop(u, None)
+            return []
         if n == "beh":
             if op[2] not in BEHS:
                 raise HarnessError(f"harness: unknown processor behaviour {op[2]!r}")
@@ -824,7 +992,7 @@ class Real:
         return kw
 
     def walk_of(self, cls, w):
-        inst = object.__new__(cls)
+        inst = _probe(cls)
         return list(cls._yield_pre_processors(inst) if w == "p" else cls._yield_post_processors(inst))
 
     def add_unit(self, u, flag, is_seq):
@@ -922,7 +1090,7 @@ class Real:
 
     def check_walk_of(self, cls, walks=None):
         probs = []
-        inst = object.__new__(cls)
+        inst = _probe(cls)
         for w, meth in (("p", cls._yield_pre_processors), ("q", cls._yield_post_processors)):
             lst = list(meth(inst))
             if walks is not None:
@@ -952,6 +1120,23 @@ class Real:
         post = [e for e in rec.ev if e.kind != "O" and e.t > owns[-1]]
         if len(pre) + len(post) + len(owns) != len(rec.ev):
             probs.append(("processor-during-own-solution", f"u{rec.uid}: processors ran between the iterations"))
+        # a unit solved AS processor of another unit (created with parent=<owner>, not one of the owner's sub-units: the
+        # library's auto-rotator, a helper unit) is a unit of its class like every other: "every processor registered
+        # for the unit's class or a base runs" - the same clauses, keys with their own prefix
+        kp = "unit-used-as-processor-" if rec.helper else ""
+        who = ""
+        if rec.helper:
+            who = (f" [{cls.__name__} unit created with parent=u{self.howner.get(rec.uid)} and solved as its "
+                   f"{'pre' if self.stack and self.stack[-1].iters == 0 else 'post'}-processor"
+                   f"{'' if cls not in self.lib else ' by the library (auto-rotator)'}]")
+        # every way out of the solution loop leads through the post-processing: also the one taken when the maximum
+        # iteration count is reached ("continuing anyway")
+        if rec.limit is not None and len(owns) >= rec.limit - 1 and not post and not self.malformed \
+                and self.applicable(cls, "q"):
+            probs.append(("no-post-processing-when-iteration-limit-reached",
+                          f"u{rec.uid}: max_iteration_count={rec.limit}, the solution loop made {len(owns)} round(s) "
+                          f"(all the limit allows) and NO post-processor factory was consulted afterwards although "
+                          f"{[r['f'] for r in self.applicable(cls, 'q')]} are registered for {cls.__name__}"))
         for w, evs in (("p", pre), ("q", post)):
             cons = [e for e in evs if e.kind == "C"]
             # what runs at THIS solve is what the factories return at THIS solve: a processor whose factory was not
@@ -963,8 +1148,9 @@ class Real:
                               f"solve (consulted: {[e.f for e in cons]})"))
             if any(not e.unit_ok for e in cons):
                 probs.append(("factory-got-wrong-unit", f"u{rec.uid}: a factory was called with another unit"))
-            probs += self.check_sequence("", cls, w, [e.f for e in cons],
-                                         none_seen_before_missing=any(e.p is None for e in cons))
+            found = self.check_sequence(kp, cls, w, [e.f for e in cons],
+                                        none_seen_before_missing=any(e.p is None for e in cons) and not rec.mute)
+            probs += [(k, t + who) for k, t in found]
             # a factory that returned a processor is followed by exactly that processor's solve; None by nothing
             want = [e.p for e in cons if e.p is not None]
             got = [e.p for e in evs if e.kind == "P"]
@@ -975,8 +1161,7 @@ class Real:
             # consultations recorded above)
             if not self.malformed:
                 exp = [r["f"] for r in self.applicable(cls, w) if r["f"] not in self.libfac]
-                now = collections.Counter(self.fdef[f][1] for f in exp if
-                                          self.fdef[f][0] == "always" or (self.fdef[f][0] == "flag" and rec.flag))
+                now = collections.Counter(self.fdef[f][1] for f in exp if self.gives_at(f, rec))
                 ran = collections.Counter(e.p for e in evs if e.kind == "P" and e.p not in self.libfac)
                 if ran - now:
                     probs.append((f"{NAMES[w]}-processor-of-factory-that-returns-nothing-now",
@@ -1028,7 +1213,8 @@ class Real:
                           f"u{rec.uid} ({how}): when the own solution starts, out_profile {d[1]} as in {last}"))
         # ... and nobody but the own solution writes there until the post-processing starts (members of a sequence and
         # their processors included): the outgoing state then is the handed-over one plus the own solution's mark
-        want_out = tuple(sorted(dict(cur_attrs, marks=tuple(cur_marks) + (rec.own_mark,)).items()))
+        own = () if rec.own_mark is None else (rec.own_mark,)      # (no mark is written on a `mute` unit)
+        want_out = tuple(sorted(dict(cur_attrs, marks=tuple(cur_marks) + own).items()))
         out_end = rec.out_attrs_before_post if rec.out_attrs_before_post is not None else rec.out_attrs_at_leave
         if d is None:
             d2 = owned_diff(out_end, want_out)
@@ -1073,12 +1259,18 @@ class Real:
         # the returned profile as a whole: the last pre-processor's output, then the own solution, then the
         # post-processors that ran at this solve, in that order (marks are unique per invocation) - nothing of an
         # earlier solve, nothing of the state before the pre-processors
-        want_ret = tuple(cur_marks) + (rec.own_mark,) + tuple(e.res for e in pp if e.beh != "s")
+        def wrote(e):
+            # a post-processor that is itself a unit hands back what ITS pre-processors, own solution and
+            # post-processors wrote (checked in the record of its own solve), then the harness's mark for it
+            if e.unitproc and e.ret_marks[:len(e.recv_marks)] == e.recv_marks and e.ret_marks[-1:] == (e.res,):
+                return tuple(e.ret_marks[len(e.recv_marks):])
+            return (e.res,) if e.beh != "s" else ()
+        want_ret = tuple(cur_marks) + own + tuple(m for e in pp for m in wrote(e))
         if tuple(rec.ret_marks) != want_ret:
             probs.append(("returned-profile-not-pre-own-post",
                           f"u{rec.uid} ({how}): the returned profile carries {[t for t, _ in rec.ret_marks]}, expected "
                           f"{[t for t, _ in want_ret]} (= {last}, the own solution, the post-processors)"))
-        elif not any(e.beh in "aAcCdD" for e in pp):
+        elif not any(e.beh in "aAcCdD" or e.unitproc for e in pp):
             # (post-processors that only write their mark: every other value is still the last pre-processor's)
             d = owned_diff(tuple(kv for kv in rec.ret_attrs if kv[0] != "marks"),
                            tuple(kv for kv in cur_attrs if kv[0] != "marks"))
@@ -1179,6 +1371,16 @@ def gen_and_run(rng, n_ops, malformed, counter=None):
             # in place / new object / untouched; new-object and in-place processors that also add, change or drop a value
             do(("beh", p, rng.choice("iiifffssaacdACDa")))
         do(("newprof",))
+        fac_ids = list(range(nf))
+        hfacs = []
+        # units solved AS processors of another unit (the library's auto-rotator; helper units made by `hfac` factories
+        # the way rotator_factory makes its Rotator: parent=<owner>, no sub-unit of it) get the processors registered on
+        # THEIR class hierarchy: not in the Lean model (its processors are no units), such a history is oracle only.
+        # (In every other history the factories registered on the auto-rotator's classes are consulted for it too -
+        # and recorded and checked - but answer None.)
+        helper_mode = rng.random() < 0.15
+        if helper_mode:
+            do(("helpermode",))
         unit_roots = [C_UNIT, C_UNIT, C_UNIT, C_TRANSPORT, C_ROTATOR, C_DEU, C_DEFU, C_THREE, C_COOL]
         # sequences inside sequences (every member of the inner one is solved at least twice per iteration of the
         # outer one): not in the Lean model, such a history is checked by the oracle only
@@ -1210,6 +1412,13 @@ def gen_and_run(rng, n_ops, malformed, counter=None):
         def toggle(u):
             do(("setflag", u, int(not real.uflag[u])))
             cnt("setflag")
+
+        def limit(u):
+            # the solution loop of this unit ends by the iteration limit (2: one round; 3: two rounds, which is
+            # convergence for a unit without feedback) or by convergence again (0: the library's default)
+            k = rng.choice([2, 2, 2, 3, 3, 0])
+            do(("maxit", u, k))
+            cnt(f"maxit:{k}")
 
         n_ops += len(ops)
         while len(ops) < n_ops:
@@ -1257,13 +1466,32 @@ def gen_and_run(rng, n_ops, malformed, counter=None):
                 pool = unitcls * 4 + [C_UNIT, C_SEQ, C_TRANSPORT, C_ROTATOR] + [i for i in made if real.cinfo[i]["mixin"]]
                 if passcls:
                     # the bases of the roll pass classes: around the library's own registration on BaseRollPass
-                    pool += [C_UNIT, C_DEU, C_DEFU, C_BRP, C_BRP, C_SRP, C_TWO] * 2
+                    # (and the class of the unit the library's factory makes: the auto-rotator)
+                    pool += [C_UNIT, C_DEU, C_DEFU, C_BRP, C_BRP, C_SRP, C_TWO] * 2 + [C_ROTATOR]
+                    if helper_mode:
+                        pool += [C_ROTATOR, C_ROTATOR, C_UNIT]
                 else:
                     # (classes whose walk is only looked at, not solved: rarely)
                     pool += [rng.choice([C_DEU, C_DEFU, C_BRP, C_SRP, C_TWO, C_THREE, C_COOL])]
                 c = rng.choice(pool)
                 w = rng.choice("ppq")
-                got = do(("reg", w, c, rng.randrange(nf)))
+                f = rng.choice(fac_ids)
+                plain = [x for x in leafcls if x not in passcls]
+                if helper_mode and plain and len(hfacs) < 3 and rng.random() < 0.35:
+                    # a factory that makes a helper UNIT of a class of this history, registered on a unit class
+                    f = nf + len(hfacs)
+                    hc = pick_class(plain)
+                    do(("hfac", f, hc, 50 + f))
+                    hfacs.append(f)
+                    fac_ids += [f, f]
+                    cnt("hfac")
+                    if rng.random() < 0.6:
+                        # registrations on the helper's own hierarchy are what it is about
+                        do(("reg", rng.choice("pq"), rng.choice([hc] + real.tail_of(real.classes[hc])[:2]),
+                            rng.randrange(nf)))
+                    c = rng.choice(unitcls + [C_UNIT])
+                    w = rng.choice("pq")
+                got = do(("reg", w, c, f))
                 cnt("reg:" + got[0][1])
                 cnt("reg-on:" + ("library" if c < len(LIBNAMES) else "made"))
             elif r < 0.61:
@@ -1303,6 +1531,8 @@ def gen_and_run(rng, n_ops, malformed, counter=None):
                     k = len(real.named) - 1
                 else:
                     k = rng.randrange(len(real.named))
+                if rng.random() < (0.5 if u in real.limits else 0.12):
+                    limit(u)
                 do(("solve", u, k))
                 cnt("solve:leaf")
             else:
@@ -1344,6 +1574,8 @@ def gen_and_run(rng, n_ops, malformed, counter=None):
                     cnt("solve:seq-with-roll-pass")
                 else:
                     k = rng.randrange(len(real.named))
+                if rng.random() < 0.15:
+                    limit(rng.choice(real.descendants(s)))
                 do(("solveseq", s, k))
                 cnt("solve:seq")
     finally:
@@ -1388,7 +1620,7 @@ def shrink(ops, key):
         changed = False
         rounds += 1
         for i in range(len(ops) - 1, 0, -1):
-            if ops[i][0] not in ("reg", "unreg", "clear", "solve", "solveseq", "setflag"):
+            if ops[i][0] not in ("reg", "unreg", "clear", "solve", "solveseq", "setflag", "maxit"):
                 continue
             cand = ops[:i] + ops[i + 1:]
             try:
@@ -1510,6 +1742,36 @@ CORPUS = [_lib5(h) for h in [
         ("reg", "p", M0, 0), ("reg", "q", M0, 1), ("reg", "p", M0 + 1, 2), ("reg", "q", M0 + 1, 3), ("reg", "p", M0 + 2, 1),
         ("unit", M0, 0), ("unit", M0, 0), ("seq", M0 + 1, 0, [0, 1]), ("unit", M0, 0), ("seq", M0 + 2, 0, [2, 3]),
         ("solveseq", 4, 0), ("solveseq", 4, 1), ("solveseq", 2, 0)],
+    # the solution loop ends by the ITERATION LIMIT instead of by convergence (max_iteration_count 2: one round and
+    # nothing to compare with; 3: two rounds): pre-processors, own solution, post-processors all the same - a unit
+    # alone, a member of a sequence, the sequence itself, a real roll pass (its auto-rotator consults what is
+    # registered on Unit / Rotator), then with the default limit again
+    _facs([("always", "f"), ("never", "i"), ("always", "i"), ("always", "a"), ("flag", "f")]) + [
+        ("class", [C_UNIT], "a", False), ("class", [M0], "a", False), ("class", [C_SEQ], "a", False),
+        ("class", [C_TWO], "a", False),
+        ("reg", "p", M0, 0), ("reg", "q", M0, 2), ("reg", "q", M0, 1), ("reg", "q", M0 + 1, 3), ("reg", "q", C_UNIT, 0),
+        ("reg", "q", C_BRP, 2), ("reg", "p", M0 + 2, 3), ("reg", "q", M0 + 2, 0), ("reg", "p", C_ROTATOR, 2),
+        ("unit", M0 + 1, 0), ("maxit", 0, 2), ("solve", 0, 0), ("maxit", 0, 3), ("solve", 0, 0), ("maxit", 0, 0),
+        ("solve", 0, 1),
+        ("unit", M0, 0), ("unit", M0 + 1, 1), ("seq", M0 + 2, 0, [1, 2]), ("maxit", 2, 2), ("solveseq", 3, 0),
+        ("maxit", 3, 2), ("solveseq", 3, 0), ("maxit", 2, 0), ("solveseq", 3, 0),
+        ("unit", M0 + 3, 1), ("maxit", 4, 2), ("solve", 4, 0), ("unit", M0 + 3, 0), ("maxit", 5, 3), ("solve", 5, 0)],
+    # units solved AS processors of another unit (oracle only): `hfac` factories make a real unit of a class of the
+    # history with parent=<owner> (the pattern of the library's rotator_factory); what is registered on the helper's
+    # class, its base and Unit runs for it - as pre- and as post-processor of the owner, at a re-solve, for a member of
+    # a sequence; the same for the library's auto-rotator of a real roll pass (registrations on Rotator / Unit)
+    _facs([("always", "f"), ("always", "a"), ("never", "i"), ("always", "i"), ("flag", "c")]) + [
+        ("helpermode",),
+        ("class", [C_UNIT], "a", False), ("class", [C_UNIT], "a", False), ("class", [M0 + 1], "a", False),
+        ("class", [C_TWO], "a", False), ("class", [C_SEQ], "a", False),     # Owner, Stamp, SubStamp(Stamp), K, SQ
+        ("hfac", 5, M0 + 2, 55), ("hfac", 6, M0 + 1, 56),
+        ("reg", "p", M0, 5), ("reg", "q", M0, 6), ("reg", "p", M0, 3),
+        ("reg", "p", M0 + 1, 0), ("reg", "p", M0 + 1, 2), ("reg", "q", M0 + 1, 1), ("reg", "p", M0 + 2, 3),
+        ("reg", "q", M0 + 2, 0), ("reg", "q", C_UNIT, 3),
+        ("reg", "p", C_ROTATOR, 1), ("reg", "q", C_ROTATOR, 0), ("reg", "p", C_BRP, 3),
+        ("unit", M0, 0), ("solve", 0, 0), ("solve", 0, 1),
+        ("unit", M0 + 3, 1), ("solve", 1, 0), ("setflag", 1, 0), ("solve", 1, 0),
+        ("unit", M0, 1), ("unit", M0 + 1, 0), ("seq", M0 + 4, 0, [2, 3]), ("solveseq", 4, 0)],
 ]
 
 
@@ -1521,7 +1783,7 @@ def check_library(ctx):
     from pyroll.core.roll_pass.base import rotator_factory
     probs = []
     for cls in (pr.Unit, pr.PassSequence, pr.Transport, pr.Rotator, pr.DiskElementUnit, pr.CoolingPipe):
-        inst = object.__new__(cls)
+        inst = _probe(cls)
         for name, meth in (("pre_processors", cls._yield_pre_processors), ("post_processors", cls._yield_post_processors)):
             got = list(meth(inst))
             if got:
@@ -1533,7 +1795,7 @@ def check_library(ctx):
     for cls in (pr.TwoRollPass, pr.ThreeRollPass):
         if getattr(cls, "__abstractmethods__", None):
             continue
-        inst = object.__new__(cls)
+        inst = _probe(cls)
         got = list(cls._yield_pre_processors(inst))
         if got != [rotator_factory]:
             probs.append(f"{cls.__name__} yields pre_processors {[getattr(x, '__name__', '?') for x in got]}, expected "
@@ -1552,7 +1814,7 @@ def check_library(ctx):
     for cls in seen:
         if inspect.isabstract(cls):
             continue
-        inst = object.__new__(cls)
+        inst = _probe(cls)
         for name, meth in (("pre_processors", cls._yield_pre_processors), ("post_processors", cls._yield_post_processors)):
             want = [f for k in reversed(cls.__mro__) for f in (k.__dict__.get(name) or ())]
             got = list(meth(inst))
@@ -1656,8 +1918,16 @@ def _digest(ctx, ops, pairs, real, stream, reported):
             ctx.count("solve:out-profile-re-used" + ("-inside-sequence" if r.depth else ""))
             if any(e.kind == "P" and e.w == "p" and e.beh in NEW_OBJECT_BEHS for e in r.ev):
                 ctx.count("solve:out-profile-re-used-after-new-object-pre-processor")
-        if r.depth >= 2:
+        if r.depth >= 2 and not r.helper:
             ctx.count("solve:inside-nested-sequence")
+        if r.helper:
+            ctx.count("solve:unit-used-as-processor" + ("" if r.mute else "-with-its-own-processors"))
+            if nc:
+                ctx.count("solve:unit-used-as-processor-consulting-factories")
+        if r.limit is not None:
+            ctx.count("solve:iteration-limit-set")
+            if r.iters >= r.limit - 1:
+                ctx.count("solve:all-rounds-the-limit-allows")
         if r.sibling:
             ctx.count("solve:registrations-on-sibling-class-exist")
     for b in real.beh.values():
@@ -1730,17 +2000,21 @@ def run(ctx):
     for ops in CORPUS:
         pairs, real, _ = execute(ops)
         case = (ops,) + _digest(ctx, ops, pairs, real, "corpus", reported)
-        if not real.nested:                 # (a sequence inside a sequence is not in the Lean model: oracle only)
-            cases.append(case)
+        if not (real.nested or real.helper_mode):   # (sequences inside sequences, units used as processors with their
+            cases.append(case)                       #  own processors are not in the Lean model: oracle only)
     for i in range(n_cases):
         malformed = ctx.rng.random() < 0.15
         n_ops = ctx.rng.randrange(14, 34 if ctx.tier == "quick" else 48)
         ops, pairs, real = gen_and_run(ctx.rng, n_ops, malformed, ctx.count)
         case = (ops,) + _digest(ctx, ops, pairs, real, "malformed" if malformed else "cooperative", reported)
-        nested = real.nested
+        nested = real.nested or real.helper_mode
+        if real.helper_mode:
+            ctx.count("stream:units-as-processors-oracle-only")
+        if real.nested:
+            ctx.count("stream:nested-sequences-oracle-only")
         del real, pairs
         if nested:
-            ctx.count("stream:nested-sequences-oracle-only")
+            pass
         elif use_model:
             cases.append(case)
         if i % 50 == 49:
